@@ -156,21 +156,38 @@ theorem C04_closure_never_rebound (env : Env W HS) (x : String) (st : St W HS) :
   | none => exact ⟨rfl, rfl⟩
   | some cfg =>
     simp only
-    rw [bind_def_M]
-    unfold lookup
-    cases lookupV env st x with
-    | none => exact ⟨rfl, rfl⟩
-    | some v =>
+    have inner : ((lookup env x >>= fun v =>
+          if shouldInstr cfg x [] then interactSem env x .noneV (annValOpt env none) v false else pure v) st).2.loc = st.loc
+        ∧ ((lookup env x >>= fun v =>
+          if shouldInstr cfg x [] then interactSem env x .noneV (annValOpt env none) v false else pure v) st).2.w = st.w := by
+      rw [bind_def_M]
+      unfold lookup
+      cases lookupV env st x with
+      | none => exact ⟨rfl, rfl⟩
+      | some v =>
+        simp only
+        split
+        · unfold interactSem
+          rcases env.host.hnd { name := x, key := .noneV, ann := annValOpt env none, value := v, ovr := false } st.hs
+            with ⟨r, hs1⟩
+          cases r with
+          | err e => exact ⟨rfl, rfl⟩
+          | ok a => cases a <;> exact ⟨rfl, rfl⟩
+        · exact ⟨rfl, rfl⟩
+    rcases hm : (lookup env x >>= fun v =>
+        if shouldInstr cfg x [] then interactSem env x .noneV (annValOpt env none) v false else pure v) st with ⟨r, st1⟩
+    rw [hm] at inner
+    cases r with
+    | ok a => exact inner
+    | err e =>
       simp only
       split
-      · rw [bind_def_M]
-        unfold interactSem
-        rcases env.host.hnd { name := x, key := .noneV, ann := annValOpt env none, value := v, ovr := false } st.hs
-          with ⟨r, hs1⟩
-        cases r with
-        | err e => exact ⟨rfl, rfl⟩
-        | ok a => cases a <;> exact ⟨rfl, rfl⟩
-      · exact ⟨rfl, rfl⟩
+      · exact inner
+      · split
+        · split
+          · exact inner
+          · exact inner
+        · exact inner
 
 /-- a test: `def f(a): b = a; return b` with `b` overridden to `b + 3` returns 8 through the rewritten code -/
 theorem C04_example_program :
